@@ -206,6 +206,7 @@ YOUTUBE_CHANNEL_NAME_BLACKLIST = {
     "reporthistory",
     "results",
     "t",
+    "watch",
 }
 
 YoutubeVideo = namedtuple("YoutubeVideo", ["id", "playlist"])
